@@ -74,6 +74,51 @@ func (w *ReloadWorld) outcomeOf(resp *Resp, tok string) outcome {
 	return o
 }
 
+// apiProbes: non-mutating authorised/unauthorised calls on the Pull and Admin
+// APIs with the old and the new tokens (an ack of an unknown lease is 409 when
+// authorised and 401 when not; it never changes the queue).
+func (w *ReloadWorld) apiProbes(specs ...*SysSpec) string {
+	var out []string
+	seen := map[string]bool{}
+	for _, sp := range specs {
+		for ri := range sp.Routes {
+			r := &sp.Routes[ri]
+			if r.PullPath == "" {
+				continue
+			}
+			toks := append(append([]string(nil), sp.PullTokens...), r.PullTokens...)
+			for _, tok := range toks {
+				key := r.PullPath + "|" + tok
+				if seen[key] {
+					continue
+				}
+				seen[key] = true
+				req, err := NewRequest("POST", r.PullPath+"/ack", "pull.internal", "10.9.9.9:5", []KV{{"Authorization", "Bearer " + tok}, {"Content-Type", "application/json"}}, []byte(`{"lease_id":"lease_probe_unknown"}`))
+				if err != nil {
+					continue
+				}
+				resp := w.Do("pullprobe", w.Pull, req)
+				out = append(out, fmt.Sprintf("pull %s tok=%s -> %d", r.PullPath, tok, resp.Status))
+			}
+		}
+		for _, tok := range append([]string{"no-admin-token"}, sp.AdminTokens...) {
+			key := "admin|" + tok
+			if seen[key] {
+				continue
+			}
+			seen[key] = true
+			req, err := NewRequest("GET", "/messages?limit=1", "admin.internal", "127.0.0.1:9", []KV{{"Authorization", "Bearer " + tok}}, nil)
+			if err != nil {
+				continue
+			}
+			resp := w.Do("adminprobe", w.Admin, req)
+			out = append(out, fmt.Sprintf("admin tok=%s -> %d", tok, resp.Status))
+		}
+	}
+	sort.Strings(out)
+	return strings.Join(out, "; ")
+}
+
 func (w *ReloadWorld) probe(rs ReqSpec) outcome {
 	t, tok := w.probeStart(rs)
 	if t == nil {
@@ -125,13 +170,20 @@ func RunReloadFailProgram(p *Program) *Result {
 	for _, pr := range sys.Probes {
 		before = append(before, w.probe(pr))
 	}
+	// the file the operator saved differs from the running configuration in
+	// routes / authentication / tokens AND cannot be applied
+	edited := &spec
+	if sys.NewSpec != nil {
+		edited = sys.NewSpec
+	}
+	apiBefore := w.apiProbes(&spec, edited)
 	old, _ := os.ReadFile(w.cfgPath)
 	switch sys.Bad {
 	case "unreadable":
 		_ = os.Remove(w.cfgPath)
 		_ = os.Mkdir(w.cfgPath, 0o755) // a directory: ReadFile fails
 	default:
-		text, ok := badConfigText(&spec, sys.Bad)
+		text, ok := badConfigText(edited, sys.Bad)
 		if !ok {
 			w.Res.Trouble = "unknown bad kind " + sys.Bad
 			return w.Res
@@ -155,6 +207,9 @@ func RunReloadFailProgram(p *Program) *Result {
 		if !after.equal(before[i]) {
 			w.addV("C18.badreload.changed", "reloadfail/"+sys.Bad, "after a failed reload (%s) probe %d (%s %s) behaves differently: before {%s}, after {%s}", sys.Bad, i, pr.Method, pr.Path, before[i], after)
 		}
+	}
+	if apiAfter := w.apiProbes(&spec, edited); apiAfter != apiBefore {
+		w.addV("C18.badreload.changed", "reloadfail/"+sys.Bad+"/api", "after a failed reload (%s) the Pull/Admin API authorisation changed: before {%s}, after {%s}", sys.Bad, apiBefore, apiAfter)
 	}
 	// a second, good reload of the original file must still work (the failed one left no debris)
 	if sys.Bad == "unreadable" {
@@ -281,22 +336,31 @@ func genProbes(t *rapid.T, specs ...*SysSpec) []ReqSpec {
 func GenReloadFailProgram(t *rapid.T) *Program {
 	p := &Program{World: "reloadfail"}
 	spec := genStatelessSpec(t)
-	sys := reloadSys{Spec: spec, Bad: rapid.SampledFrom([]string{"unreadable", "parse", "compile", "secret", "restart"}).Draw(t, "bad")}
-	sys.Probes = genProbes(t, spec)
+	if rapid.Bool().Draw(t, "admin_tokens") {
+		spec.AdminTokens = []string{"admin-tok-old"}
+	}
+	ns := genChangedSpec(t, spec)
+	sys := reloadSys{Spec: spec, NewSpec: ns, Bad: rapid.SampledFrom([]string{"unreadable", "parse", "compile", "secret", "restart", "restart"}).Draw(t, "bad")}
+	sys.Probes = genProbes(t, spec, ns)
 	p.Sys, _ = json.Marshal(sys)
 	return p
 }
 
-func GenAtomicProgram(t *rapid.T) *Program {
-	p := &Program{World: "atomic"}
-	spec := genStatelessSpec(t)
+// genChangedSpec: a copy of spec that differs in what requests read (routes,
+// authentication, limits) and in API tokens.
+func genChangedSpec(t *rapid.T, spec *SysSpec) *SysSpec {
 	b, _ := json.Marshal(spec)
 	var ns SysSpec
 	_ = json.Unmarshal(b, &ns)
-	// change exactly the things a request reads in separate steps
 	for i := 0; i < rapid.IntRange(1, 3).Draw(t, "nchanges"); i++ {
 		ri := rapid.IntRange(0, len(ns.Routes)-1).Draw(t, "ri")
-		switch rapid.IntRange(0, 5).Draw(t, "change") {
+		switch rapid.IntRange(0, 8).Draw(t, "change") {
+		case 6: // pull token rotated
+			ns.PullTokens = []string{"pull-token-rotated"}
+		case 7: // admin token rotated / introduced
+			ns.AdminTokens = []string{"admin-tok-new"}
+		case 8: // per-route pull token
+			ns.Routes[ri].PullTokens = []string{"route-tok-new"}
 		case 0: // auth on/off
 			if len(ns.Routes[ri].Basic) > 0 {
 				ns.Routes[ri].Basic = nil
@@ -321,6 +385,14 @@ func GenAtomicProgram(t *rapid.T) *Program {
 			ns.Routes[ri].MaxBody = 4
 		}
 	}
+	return &ns
+}
+
+func GenAtomicProgram(t *rapid.T) *Program {
+	p := &Program{World: "atomic"}
+	spec := genStatelessSpec(t)
+	nsp := genChangedSpec(t, spec)
+	ns := *nsp
 	sys := reloadSys{Spec: spec, NewSpec: &ns}
 	sys.Probes = genProbes(t, spec, &ns)
 	sys.Sched = rapid.SliceOfN(rapid.IntRange(0, 5), 0, 60).Draw(t, "sched")
